@@ -18,7 +18,7 @@ func runC06(c *Check, tier string) {
 	c.NotDec = "byte equality of the restored content, symlink semantics, file-over-directory states, umask."
 	ruleR06a(c)
 	ruleR06b(c)
-	ruleR06c(c)
+	ruleR06c(c, "R06c")
 	ruleR06d(c)
 	ruleR06e(c)
 	ruleR06f(c)
@@ -195,8 +195,8 @@ func recordDigestOrigin(v ssa.Value) bool {
 }
 
 // R06c: clear then recreate
-func ruleR06c(c *Check) {
-	c.Rule("R06c", "in the directory Load, os.RemoveAll of the destination succeeds before the destination is created and before anything is created below it", 1)
+func ruleR06c(c *Check, rule string) {
+	c.Rule(rule, "in the directory Load, os.RemoveAll of the destination succeeds before the destination is created and before anything is created below it", 1)
 	impls, _ := handlerFuncs(c, "Load")
 	for _, fn := range impls {
 		var mk []ssa.CallInstruction
@@ -214,7 +214,7 @@ func ruleR06c(c *Check) {
 				}
 			}
 			if len(mk) == 0 {
-				c.Bad("R06c", "clear-before-recreate/"+c.P.FuncName(fn), "the directory restore never (re)creates its destination directory", c.P.Pos(fn.Pos()))
+				c.Bad(rule, "clear-before-recreate/"+c.P.FuncName(fn), "the directory restore never (re)creates its destination directory", c.P.Pos(fn.Pos()))
 				continue
 			}
 		}
@@ -224,7 +224,7 @@ func ruleR06c(c *Check) {
 		fname := c.P.FuncName(fn)
 		ras := callsNamed(fn, "os.RemoveAll")
 		if len(ras) == 0 {
-			c.Bad("R06c", "clear-before-recreate/"+fname, "the destination directory is recreated without removing the existing tree first: stale extra files from an earlier build survive the restore", c.P.InstrPos(mk[0]))
+			c.Bad(rule, "clear-before-recreate/"+fname, "the destination directory is recreated without removing the existing tree first: stale extra files from an earlier build survive the restore", c.P.InstrPos(mk[0]))
 			continue
 		}
 		ra := ras[0]
@@ -252,7 +252,7 @@ func ruleR06c(c *Check) {
 				}
 			}
 		}
-		c.Require(bad == "", "R06c", "clear-before-recreate/"+fname, "RemoveAll(dst) returned nil before MkdirAll(dst) and before any creation below dst", bad, c.P.InstrPos(ra))
+		c.Require(bad == "", rule, "clear-before-recreate/"+fname, "RemoveAll(dst) returned nil before MkdirAll(dst) and before any creation below dst", bad, c.P.InstrPos(ra))
 	}
 }
 
